@@ -30,6 +30,8 @@
 #include <unistd.h>
 
 #include <sstream>
+#include <condition_variable>
+#include <mutex>
 #include <thread>
 
 using namespace iora::network;
@@ -55,6 +57,10 @@ struct World
   uint64_t stopReturnedStep = 0;
   bool udp = false;
   std::string inbound;
+  // harness-side rendezvous: set (and signalled) by the data callback when it runs inside the caller's own flush
+  std::mutex hm;
+  std::condition_variable hcv;
+  bool inFlushCb = false;
 };
 
 // A Sync->Async flush hands buffered bytes to the data callback ON THE CALLER'S OWN THREAD as part of that
@@ -109,7 +115,20 @@ void setup(World &w, bool udp, bool withSession)
   World *wp = &w;
   w.t->onAccept([wp](SessionId s, const TransportAddress &) { wp->sid = s; cbLogged(*wp); });
   w.t->onConnect([wp](SessionId s, const TransportAddress &) { wp->sid = s; cbLogged(*wp); });
-  w.t->onData([wp](SessionId, iora::core::BufferView d, std::chrono::steady_clock::time_point) { wp->inbound.append((const char *)d.data(), d.size()); cbLogged(*wp); });
+  w.t->onData(
+    [wp](SessionId, iora::core::BufferView d, std::chrono::steady_clock::time_point)
+    {
+      wp->inbound.append((const char *)d.data(), d.size());
+      cbLogged(*wp);
+      if (tl_inOwnFlush)
+      {
+        {
+          std::lock_guard<std::mutex> g(wp->hm);
+          wp->inFlushCb = true;
+        }
+        wp->hcv.notify_all();
+      }
+    });
   w.t->onClose([wp](SessionId, const TransportErrorInfo &) { cbLogged(*wp); });
   watch(w);
   if (w.t->start().isErr())
@@ -312,6 +331,13 @@ void runGeneric(const Scn &sc)
     // destroying while callers are inside is only legitimate once they are parked (counted by the handshake)
     if (parkedOps)
       mc_quiesce();
+    else if (sc.a == OP_FLUSH)
+    {
+      // a flush in progress is counted by the teardown handshake (activeFlushes): the last owner may be released
+      // while the flushing thread is inside the user callback
+      std::unique_lock<std::mutex> lk(w.hm);
+      w.hcv.wait(lk, [&] { return w.inFlushCb; });
+    }
     else
     {
       for (auto &x : th)
@@ -508,6 +534,7 @@ const Scn SCN[] = {
   {"tcp_stop_vs_connectSync", false, OP_CONNECT_SYNC, OP_NONE, TD_STOP, 2, 3},
   {"tcp_drop_vs_connectSync", false, OP_CONNECT_SYNC, OP_NONE, TD_DROP, 2, 3},
   {"tcp_stop_vs_flush", false, OP_FLUSH, OP_NONE, TD_STOP, 2, 3},
+  {"tcp_drop_vs_flush", false, OP_FLUSH, OP_NONE, TD_DROP, 2, 3},
   {"tcp_stop_vs_send_close_connect", false, OP_SEND_CLOSE, OP_CONNECT, TD_STOP, 1, 2},
   {"tcp_stop_vs_addListener", false, OP_ADD_LISTENER, OP_NONE, TD_STOP, 2, 3},
   {"tcp_stop_vs_stats_receive", false, OP_STATS, OP_RECEIVE_SYNC, TD_STOP, 1, 2},
